@@ -243,7 +243,11 @@ def check(ctx):
             for k in agg:
                 agg[k] += res[k]
             for w, files in res["viol"]:
-                ctx.rep.violation(w, files, ["/verif/build/hooks/uncrustify", "-c", "config.cfg", "-l", files["lang"], "-f", "input"])
+                # the witness proper is (clause, cause); everything else is detail (keeps one replay per kind of violation)
+                import json as _json
+                files = dict(files); files["detail.json"] = _json.dumps(w, indent=1)
+                wk = {"clause": w["clause"], "cause": w.get("cause", ""), "marker": w["marker"], "terminated": w.get("terminated", True)}
+                ctx.rep.violation(wk, files, ["/verif/build/hooks/uncrustify", "-c", "config.cfg", "-l", files["lang"], "-f", "input"])
         if pool.cut:
             ctx.cut = True
     cov = {
@@ -265,6 +269,8 @@ def check(ctx):
 def replay(path):
     import json
     w = json.load(open(os.path.join(path, "witness.json")))["witness"]
+    if os.path.exists(os.path.join(path, "detail.json")):
+        w = dict(json.load(open(os.path.join(path, "detail.json"))), **w)
     print(json.dumps(w, indent=1))
     src = open(os.path.join(path, "input"), "rb").read()
     cfg = open(os.path.join(path, "config.cfg")).read() or None
